@@ -4,7 +4,7 @@ payload: list of {files:[relative paths], dirs:[relative paths], target, rename}
 result : list of {ok, ret, splitext:[root, ext], before:{path:[sha,kind]}, after:{...}} -- paths relative
 to the scratch directory, sub-directories listed recursively."""
 import hashlib
-import json
+import signal, json
 import logging
 import os
 import shutil
@@ -27,6 +27,11 @@ def listing():
     return out
 
 
+def _alarm(*a):
+    raise TimeoutError('no answer after 20 s')
+
+
+signal.signal(signal.SIGALRM, _alarm)
 cases = json.load(sys.stdin)
 res = []
 root = os.getcwd()
@@ -43,9 +48,12 @@ for c in cases:
                 fh.write('content of ' + f + '\n')
         r = {'before': listing(), 'splitext': list(os.path.splitext(c['target']))}
         try:
+            signal.alarm(20)
             r['ret'] = create_backup(c['target'], bool(c['rename']))
+            signal.alarm(0)
             r['ok'] = True
         except Exception as e:  # noqa
+            signal.alarm(0)
             r['ok'] = False
             r['exc'] = type(e).__name__
             r['msg'] = str(e)[:200]
